@@ -5,11 +5,12 @@
       node : <sheettok> <col> <row> (- | <col2>:<row2>)  <spec>
       spec : I <val>                      value cell with its value at save time
            | F <codetok> <fml>            formula cell: python code + formula of Model/EngineInst.lean
-                                          (ref j | cat k j*k | add a b | sum k j*k | cnt k j*k | idx r row col)
+                                          (ref j | cat k j*k | add a b | sub a b | eq a b | sum k j*k | cnt k j*k
+                                           | idx r row col)
            | X <codetok>                  formula / CSE range whose semantics is not modelled (no history is sent)
            | R <rows> <cols> j*(rows*cols) plain range
       ORD  : the insertion order of the real cell_map (node numbers)
-      op   : S i <val> | E i
+      op   : S i <val> | E i | M k (i <val>)*k  (set_value of a range / list of cells) | X k i*k  (evaluate of a list)
   Answer, ';'-separated:
       map:<i>=<tok>~…      the cell_map section of the file in file order (`serialize`), node number = entry
       twice:0|1            the second save of the unchanged model writes the same document
@@ -43,6 +44,8 @@ def parseExt (t : String) : Option (Option (Nat × Nat)) :=
 def parseFml : List String → Option (Fml × List String)
   | "ref" :: j :: rest => do some (.ref (← j.toNat?), rest)
   | "add" :: a :: b :: rest => do some (.add (← a.toNat?) (← b.toNat?), rest)
+  | "sub" :: a :: b :: rest => do some (.sub (← a.toNat?) (← b.toNat?), rest)
+  | "eq" :: a :: b :: rest => do some (.eq (← a.toNat?) (← b.toNat?), rest)
   | "idx" :: r :: row :: col :: rest => do some (.idx (← r.toNat?) (← row.toNat?) (← col.toNat?), rest)
   | "cat" :: k :: rest => do
       let (js, rest) ← takeNats (← k.toNat?) rest
@@ -75,28 +78,52 @@ partial def parseNodes : Nat → List String → Option (List Node × List Strin
     some (nd :: nds, rest)
   | _, _ => none
 
-partial def parseOps : List String → Option (List (Op EV))
+partial def takePairs : Nat → List String → Option (List (Nat × EV) × List String)
+  | 0, ts => some ([], ts)
+  | k+1, i :: v :: ts => do
+    let i ← i.toNat?
+    let v ← Val.dec? v
+    let (ps, rest) ← takePairs k ts
+    some ((i, .sc v) :: ps, rest)
+  | _, _ => none
+
+partial def parseOps : List String → Option (List (OpX EV))
   | [] => some []
   | "S" :: i :: v :: rest => do
     let ops ← parseOps rest
-    some (.set (← i.toNat?) (.sc (← Val.dec? v)) :: ops)
+    some (.op (.set (← i.toNat?) (.sc (← Val.dec? v))) :: ops)
   | "E" :: a :: rest => do
     let ops ← parseOps rest
-    some (.eval (← a.toNat?) :: ops)
+    some (.op (.eval (← a.toNat?)) :: ops)
+  | "M" :: k :: rest => do
+    let (ps, rest) ← takePairs (← k.toNat?) rest
+    let ops ← parseOps rest
+    some (.setMany ps :: ops)
+  | "X" :: k :: rest => do
+    let (js, rest) ← takeNats (← k.toNat?) rest
+    let ops ← parseOps rest
+    some (.evalMany js :: ops)
   | _ => none
 
 def encEV : EV → String
   | .sc v => v.enc
   | .arr rows => encArr rows
 
-def runOps (wb : Workbook) (f : Nat → (Nat → EV) → EV) : State EV → List (Op EV) → List String
+def accepted (wb : Workbook) (s : State EV) (i : Nat) : Bool :=
+  decide (i < wb.n) && decide (wb.kind i = .input) && s.built i
+
+def runOps (wb : Workbook) (f : Nat → (Nat → EV) → EV) : State EV → List (OpX EV) → List String
   | _, [] => []
-  | s, .set i v :: h =>
-    let ok := decide (i < wb.n) && decide (wb.kind i = .input) && s.built i
-    (if ok then "ok" else "rej") :: runOps wb f (setValue wb typedEq i v s) h
-  | s, .eval a :: h =>
+  | s, .op (.set i v) :: h =>
+    (if accepted wb s i then "ok" else "rej") :: runOps wb f (setValue wb typedEq i v s) h
+  | s, .op (.eval a) :: h =>
     let r := evaluate wb f a s
     (if a < wb.n then encEV r.1 else "!unknown-node") :: runOps wb f r.2 h
+  | s, .setMany l :: h =>
+    (if l.all (fun p => accepted wb s p.1) then "ok" else "rej") :: runOps wb f (setMany wb typedEq l s) h
+  | s, .evalMany l :: h =>
+    let r := evalMany wb f l s
+    (if l.all (· < wb.n) then "&".intercalate (r.1.map encEV) else "!unknown-node") :: runOps wb f r.2 h
 
 def indexOfKey (nodes : List Node) (k : Key) : Nat :=
   (nodes.findIdx? fun nd => nd.key == k).getD nodes.length
@@ -110,7 +137,7 @@ def emb0 : Emb Nat := ⟨fun _ => 0, fun _ => 0, fun _ => 0⟩
 
 def boolTok (b : Bool) : String := if b then "1" else "0"
 
-def answer (nodes : List Node) (order : List Nat) (extra : Option (List (List Char))) (ops : List (Op EV)) : String :=
+def answer (nodes : List Node) (order : List Nat) (extra : Option (List (List Char))) (ops : List (OpX EV)) : String :=
   let cells := order.map fun i => let nd := nodes.getD i default; entryOf nd (curVal nd)
   let m : Model Nat :=
     { cells := cells, cycles := none, hash := none, filename := [], extra := extra.map fun ks => ks.map fun k => (k, 0) }
